@@ -11,7 +11,6 @@ import (
 	"go/ast"
 	"go/token"
 	"go/types"
-	"sort"
 	"strings"
 )
 
@@ -57,402 +56,7 @@ func isConstruct(f *types.Func) bool {
 	return f.Type().(*types.Signature).Recv() != nil
 }
 
-// opsReaching returns the set of polyclip.Op constant names that can reach
-// Construct from fn's returns, with opBind giving the binding of fn's own
-// Op-typed parameter (if any).
-func (a *c01) opsReaching(fn *types.Func, bind string, meth string, depth int, out map[string]bool, why *[]string) {
-	fd := a.c.P.Decl(fn)
-	if fd == nil || depth > 5 {
-		*why = append(*why, "cannot follow "+fn.Name())
-		return
-	}
-	info := a.c.P.InfoOf(fn)
-	var opParam types.Object
-	for _, p := range paramVars(info, fd.Type) {
-		if p != nil && isPolyclipOp(p.Type()) {
-			opParam = p
-		}
-	}
-	opOf := func(e ast.Expr) string {
-		e = unparen(e)
-		if o := objOf(info, e); o != nil {
-			if o == opParam {
-				return bind
-			}
-		}
-		// any constant expression of type polyclip.Op: name it by value
-		if tv, ok := info.Types[e]; ok && tv.Value != nil && isPolyclipOp(tv.Type) {
-			if dep := a.c.P.Dep(polyclipPath); dep != nil {
-				for _, nm := range dep.Types.Scope().Names() {
-					if cst, ok := dep.Types.Scope().Lookup(nm).(*types.Const); ok && isPolyclipOp(cst.Type()) && cst.Val().ExactString() == tv.Value.ExactString() {
-						return cst.Name()
-					}
-				}
-			}
-		}
-		return ""
-	}
-	ast.Inspect(fd.Body, func(n ast.Node) bool {
-		call, ok := n.(*ast.CallExpr)
-		if !ok {
-			return true
-		}
-		f := callee(info, call)
-		if f == nil {
-			return true
-		}
-		if isConstruct(f) {
-			if len(call.Args) >= 1 {
-				if op := opOf(call.Args[0]); op != "" {
-					out[op] = true
-				} else {
-					*why = append(*why, "operation argument `"+src(call.Args[0])+"` of Construct is not a constant or the op parameter")
-				}
-			}
-			return true
-		}
-		if a.c.P.Decl(f) == nil {
-			return true
-		}
-		sig := f.Type().(*types.Signature)
-		// helper with an Op parameter
-		for i := 0; i < sig.Params().Len(); i++ {
-			if isPolyclipOp(sig.Params().At(i).Type()) && i < len(call.Args) {
-				if op := opOf(call.Args[i]); op != "" {
-					a.opsReaching(f, op, meth, depth+1, out, why)
-				} else {
-					*why = append(*why, "operation argument `"+src(call.Args[i])+"` is not a constant")
-				}
-				return true
-			}
-		}
-		// delegation to a Polygonal set-operation method
-		if sig.Recv() != nil {
-			if _, isOp := c01ops[f.Name()]; isOp {
-				if isNilTest(info, fd.Body, call) && isNamed(sig.Recv().Type(), modPath, "Bounds") {
-					return true // a box-vs-box emptiness test, judged by the shortcut rules (C01.R4 / C14.R4), not a delegation
-				}
-				if f.Name() != meth {
-					*why = append(*why, "delegates to "+f.Name()+", not "+meth)
-					out["via-"+f.Name()] = true
-					return true
-				}
-				if f != fn {
-					a.opsReaching(f, "", meth, depth+1, out, why)
-				}
-			}
-		}
-		return true
-	})
-}
-
-func (a *c01) r1() {
-	c := a.c
-	for _, tn := range []string{"Polygon", "MultiPolygon", "Bounds"} {
-		var meths []string
-		for m := range c01ops {
-			meths = append(meths, m)
-		}
-		sort.Strings(meths)
-		for _, mn := range meths {
-			m := c.P.Method("geom", tn, mn)
-			label := "geom." + tn + "." + mn
-			if m == nil || c.P.Decl(m) == nil {
-				c.Unk("C01.R1", label, token.NoPos, "API anchor does not resolve")
-				continue
-			}
-			label = c.P.FuncName(m)
-			out := map[string]bool{}
-			var why []string
-			a.opsReaching(m, "", mn, 0, out, &why)
-			var got []string
-			for k := range out {
-				got = append(got, k)
-			}
-			sort.Strings(got)
-			want := c01ops[mn]
-			switch {
-			case len(why) > 0:
-				c.Bad("C01.R1", label, c.P.Decl(m).Pos(), "%s", why[0])
-			case len(got) == 1 && got[0] == want:
-				c.OK("C01.R1", label, c.P.Decl(m).Pos(), "reaches Construct with polyclip.%s", want)
-			case len(got) == 0:
-				c.Bad("C01.R1", label, c.P.Decl(m).Pos(), "no call path reaches the clipper")
-			default:
-				c.Bad("C01.R1", label, c.P.Decl(m).Pos(), "reaches Construct with polyclip.%s, want polyclip.%s: a different set operation is computed", strings.Join(got, ","), want)
-			}
-		}
-	}
-}
-
 // ---------------------------------------------------------------- R2/R3
-
-func (a *c01) r2r3() {
-	c := a.c
-	pk := c.P.Pkg("geom")
-	info := pk.TypesInfo
-	var converters = map[*types.Func]bool{}
-	var backConv = map[*types.Func]bool{}
-	n := 0
-	for _, fn := range c.P.RepoFuncs() {
-		if c.P.DeclPkg(fn) != pk {
-			continue
-		}
-		fd := c.P.Decl(fn)
-		var cons *ast.CallExpr
-		ast.Inspect(fd.Body, func(nd ast.Node) bool {
-			if call, ok := nd.(*ast.CallExpr); ok && isConstruct(callee(info, call)) {
-				cons = call
-			}
-			return true
-		})
-		if cons == nil {
-			continue
-		}
-		n++
-		name := c.P.FuncName(fn)
-		recv := receiverVar(info, fd)
-		var param types.Object
-		for _, p := range paramVars(info, fd.Type) {
-			if p != nil && !isPolyclipOp(p.Type()) {
-				param = p
-			}
-		}
-		sc := newFnScope(info, fd.Body)
-		sel, _ := unparen(cons.Fun).(*ast.SelectorExpr)
-		msg := ""
-		if sel == nil || len(cons.Args) != 2 || recv == nil || param == nil {
-			c.Unk("C01.R2", name, cons.Pos(), "Construct call shape not recognised")
-			continue
-		}
-		if m := a.builtFrom(info, sc, fd, sel.X, recv, false, converters); m != "" {
-			msg = "subject operand `" + src(sel.X) + "`: " + m
-		} else if m := a.builtFrom(info, sc, fd, cons.Args[1], param, true, converters); m != "" {
-			msg = "clipping operand `" + src(cons.Args[1]) + "`: " + m
-		}
-		if msg != "" {
-			c.Bad("C01.R2", name, cons.Pos(), "%s", msg)
-		} else {
-			c.OK("C01.R2", name, cons.Pos(), "subject from the receiver only, clipping operand from every polygon of the parameter")
-		}
-		// the result goes through the back-converter
-		path := enclosing(fd.Body, cons)
-		for i := len(path) - 1; i >= 0; i-- {
-			if call, ok := path[i].(*ast.CallExpr); ok && call != cons {
-				if f := callee(info, call); f != nil && c.P.Decl(f) != nil {
-					backConv[f] = true
-				}
-				break
-			}
-		}
-	}
-	if n == 0 {
-		c.Unk("C01.R2", "geom#Construct-callers", token.NoPos, "no function calls polyclip Construct")
-	}
-	for f := range converters {
-		fd := c.P.Decl(f)
-		name := c.P.FuncName(f)
-		src0 := receiverVar(info, fd)
-		sc := newFnScope(info, fd.Body)
-		var problems []string
-		var ppos token.Pos = fd.Pos()
-		prob := func(pos token.Pos, m string) {
-			if len(problems) == 0 {
-				ppos = pos
-			}
-			problems = append(problems, m)
-		}
-		if src0 == nil {
-			prob(fd.Pos(), "converter has no receiver")
-		} else {
-			copyLoops(info, sc, src0, fd, false, prob)
-			a.checkResultAlloc(info, sc, fd, src0, prob)
-		}
-		if len(problems) > 0 {
-			c.Bad("C01.R2", name, ppos, "%s", problems[0])
-		} else {
-			c.OK("C01.R2", name, fd.Pos(), "copies every ring and every vertex at the same index")
-		}
-	}
-	if len(backConv) == 0 {
-		c.Unk("C01.R3", "geom#back-converter", token.NoPos, "the clipper's result is not passed through a converter")
-	}
-	for f := range backConv {
-		fd := c.P.Decl(f)
-		name := c.P.FuncName(f)
-		ps := paramVars(info, fd.Type)
-		var problems []string
-		var ppos token.Pos = fd.Pos()
-		prob := func(pos token.Pos, m string) {
-			if len(problems) == 0 {
-				ppos = pos
-			}
-			problems = append(problems, m)
-		}
-		if len(ps) != 1 || ps[0] == nil {
-			c.Unk("C01.R3", name, fd.Pos(), "unexpected signature")
-			continue
-		}
-		sc := newFnScope(info, fd.Body)
-		closed := copyLoops(info, sc, ps[0], fd, true, prob)
-		a.checkResultAlloc(info, sc, fd, ps[0], prob)
-		if !closed && len(problems) == 0 {
-			prob(fd.Pos(), "no store of the first vertex into the ring's last slot: result rings are not closed")
-		}
-		if len(problems) > 0 {
-			c.Bad("C01.R3", name, ppos, "%s", problems[0])
-		} else {
-			c.OK("C01.R3", name, fd.Pos(), "len+1 vertices per ring, last = first, all contours and vertices copied")
-		}
-	}
-}
-
-// checkResultAlloc: the returned structure is make(T, len(src)).
-func (a *c01) checkResultAlloc(info *types.Info, sc *fnScope, fd *ast.FuncDecl, src0 types.Object, prob func(token.Pos, string)) {
-	ast.Inspect(fd.Body, func(n ast.Node) bool {
-		r, ok := n.(*ast.ReturnStmt)
-		if !ok || len(r.Results) != 1 {
-			return true
-		}
-		o := objOf(info, r.Results[0])
-		if o == nil {
-			prob(r.Pos(), "result is not a local")
-			return true
-		}
-		okMake := false
-		for _, d := range sc.defs[o] {
-			if call, ok := unparen(d).(*ast.CallExpr); ok && d != nil && builtinName(info, call) == "make" && len(call.Args) >= 2 {
-				af := sc.aff(call.Args[1])
-				if af.ok && af.K == 0 && af.Of != nil && objOf(info, af.Of) == src0 {
-					okMake = true
-				} else {
-					prob(call.Pos(), "result allocated with length `"+src(call.Args[1])+"`, not the number of rings of the operand")
-				}
-			}
-		}
-		if !okMake {
-			prob(r.Pos(), "result is not allocated with one entry per ring")
-		}
-		return true
-	})
-}
-
-// builtFrom: expression e (a polyclip.Polygon) is built completely and only from
-// source: src.conv(), or appended in a full-range loop over src / src.Polygons().
-func (a *c01) builtFrom(info *types.Info, sc *fnScope, fd *ast.FuncDecl, e ast.Expr, source types.Object, viaPolygons bool, convs map[*types.Func]bool) string {
-	o := objOf(info, e)
-	if o == nil {
-		return "not a local variable"
-	}
-	isConvOf := func(x ast.Expr, of func(ast.Expr) bool) bool {
-		call, ok := unparen(x).(*ast.CallExpr)
-		if !ok || len(call.Args) != 0 {
-			return false
-		}
-		sel, ok := unparen(call.Fun).(*ast.SelectorExpr)
-		if !ok || !of(sel.X) {
-			return false
-		}
-		f := callee(info, call)
-		if f == nil || a.c.P.Decl(f) == nil {
-			return false
-		}
-		convs[f] = true
-		return true
-	}
-	built := false
-	var msg string
-	// direct definition
-	for _, d := range sc.defs[o] {
-		if d == nil {
-			continue
-		}
-		if isConvOf(d, func(x ast.Expr) bool { return objOf(info, x) == source }) {
-			built = true
-			continue
-		}
-		if call, ok := unparen(d).(*ast.CallExpr); ok && builtinName(info, call) == "append" {
-			continue // checked below in loop context
-		}
-		msg = "assigned `" + src(d) + "`"
-	}
-	// appends inside loops
-	ast.Inspect(fd.Body, func(n ast.Node) bool {
-		var loopStmt ast.Stmt
-		switch n.(type) {
-		case *ast.RangeStmt, *ast.ForStmt:
-			loopStmt = n.(ast.Stmt)
-		default:
-			return true
-		}
-		l := sc.loopOf(loopStmt)
-		var body *ast.BlockStmt
-		if rs, ok := loopStmt.(*ast.RangeStmt); ok {
-			body = rs.Body
-		} else {
-			body = loopStmt.(*ast.ForStmt).Body
-		}
-		appendsHere := false
-		for _, st := range body.List {
-			as, ok := st.(*ast.AssignStmt)
-			if !ok || len(as.Lhs) != 1 || objOf(info, as.Lhs[0]) != o {
-				continue
-			}
-			call, ok := unparen(as.Rhs[0]).(*ast.CallExpr)
-			if !ok || builtinName(info, call) != "append" || len(call.Args) != 2 || objOf(info, call.Args[0]) != o || !call.Ellipsis.IsValid() {
-				msg = "updated by `" + src(as) + "`"
-				continue
-			}
-			appendsHere = true
-			// the loop must be over the source (or source.Polygons()) in full
-			rs, isRange := loopStmt.(*ast.RangeStmt)
-			okSrc := false
-			var elem types.Object
-			if isRange && rs.Value != nil {
-				elem = objOf(info, rs.Value)
-				x := unparen(rs.X)
-				if objOf(info, x) == source {
-					okSrc = true
-				} else if pc, ok := x.(*ast.CallExpr); ok && len(pc.Args) == 0 {
-					if s2, ok := unparen(pc.Fun).(*ast.SelectorExpr); ok && s2.Sel.Name == "Polygons" && objOf(info, s2.X) == source {
-						okSrc = true
-					}
-				}
-			} else if l != nil && l.Hi.Of != nil && objOf(info, l.Hi.Of) == source && l.Lo.K == 0 && l.Hi.K == 0 {
-				okSrc = true
-			}
-			if !okSrc {
-				msg = "appended in a loop that does not range over all polygons of the operand"
-				continue
-			}
-			if !isConvOf(call.Args[1], func(x ast.Expr) bool {
-				x = unparen(x)
-				if elem != nil && objOf(info, x) == elem {
-					return true
-				}
-				return l != nil && isRecvElem(info, x, source, l.Idx)
-			}) {
-				msg = "appended value `" + src(call.Args[1]) + "` is not the conversion of the current member"
-				continue
-			}
-			built = true
-		}
-		if appendsHere {
-			brk, cont, rets := earlyExits(body)
-			if len(brk)+len(cont)+len(rets) > 0 {
-				msg = "conversion loop has an early exit: some member polygons are not converted"
-			}
-		}
-		return true
-	})
-	if msg != "" {
-		return msg
-	}
-	if !built {
-		return "is not built from the operand"
-	}
-	return ""
-}
 
 // ---------------------------------------------------------------- R4
 
@@ -651,33 +255,6 @@ func (a *c01) r5() {
 	if k == 0 {
 		c.Unk("C01.R5", "polyclip#compute", token.NoPos, "no trivial-case switch found")
 	}
-}
-
-// isNilTest: the call's value is used only as an operand of ==/!= nil.
-func isNilTest(info *types.Info, root ast.Node, call *ast.CallExpr) bool {
-	anc := enclosing(root, call)
-	for i := len(anc) - 1; i >= 0; i-- {
-		switch x := anc[i].(type) {
-		case *ast.ParenExpr:
-			continue
-		case *ast.BinaryExpr:
-			if x.Op != token.EQL && x.Op != token.NEQ {
-				return false
-			}
-			other := x.Y
-			if containsNode(x.Y, call) {
-				other = x.X
-			}
-			tv, ok := info.Types[other]
-			return ok && tv.IsNil()
-		default:
-			if anc[i] == ast.Node(call) {
-				continue
-			}
-			return false
-		}
-	}
-	return false
 }
 
 // r4polygonal: shortcut results of (*Bounds).<op>(opaque polygon) must follow from the box relation alone.
